@@ -305,6 +305,56 @@ def items_xor(src):
     yield ("Xor", "fingerprintXorConstant", ": List Nat", fpconst, "[83, 84, 85, 78]")
 
 
+
+KIND_FILES = [("Username", "user.rs"), ("MessageIntegrity", "integrity.rs"), ("ErrorCode", "error.rs"),
+              ("UnknownAttributes", "error.rs"), ("Realm", "realm.rs"), ("Nonce", "nonce.rs"),
+              ("MessageIntegritySha256", "integrity.rs"), ("PasswordAlgorithm", "password_algorithm.rs"),
+              ("Userhash", "user.rs"), ("XorMappedAddress", "xor_addr.rs"), ("Priority", "ice.rs"),
+              ("UseCandidate", "ice.rs"), ("PasswordAlgorithms", "password_algorithm.rs"),
+              ("AlternateDomain", "alternate.rs"), ("Software", "software.rs"),
+              ("AlternateServer", "alternate.rs"), ("Fingerprint", "fingerprint.rs"),
+              ("IceControlled", "ice.rs"), ("IceControlling", "ice.rs")]
+FALLBACK_CODES = [6, 8, 9, 10, 20, 21, 28, 29, 30, 32, 36, 37, 32770, 32771, 32802, 32803, 32808, 32809, 32810]
+
+
+def items_attr(src):
+    def codes():
+        out = []
+        for kind, f in KIND_FILES:
+            txt = src.get("stun-types/src/attribute/" + f)
+            m = re.search(r"impl\s+AttributeStaticType\s+for\s+" + kind + r"\s*\{\s*const\s+TYPE\s*:\s*AttributeType\s*=\s*AttributeType\(([^)]+)\)\s*;", txt)
+            if not m:
+                raise XlateError(f"TYPE of {kind} not found")
+            out.append(xlate(m.group(1), {}, 16))
+        return "[" + ", ".join(out) + "]"
+    yield ("Attr", "typeCodes", ": List Nat", codes, "[" + ", ".join(map(str, FALLBACK_CODES)) + "]")
+
+    def compreq():
+        b = fn_body(src.get(ATTR), r"pub\s+fn\s+comprehension_required\s*\(\s*self\s*\)\s*->\s*bool\s*\{")
+        if b is None:
+            raise XlateError("comprehension_required not found")
+        return "decide " + xlate(b.strip(), {"self.0": "t"}, 16)
+    yield ("Attr", "comprehensionRequired", "(t : Nat) : Bool", compreq, "decide (t < 32768)")
+
+    def padded():
+        b = fn_body(src.get(ATTR), r"fn\s+padded_attr_len\s*\(\s*len\s*:\s*usize\s*\)\s*->\s*usize\s*\{")
+        if b is None:
+            raise XlateError("padded_attr_len not found")
+        m = re.match(r"\s*if\s+(.+?)\s*\{\s*(.+?)\s*\}\s*else\s*\{\s*(.+?)\s*\}\s*$", b, flags=re.S)
+        if not m:
+            raise XlateError("padded_attr_len shape")
+        cond = xlate(m.group(1), {"len": "len"}, 64).replace("==", "=")
+        return f"if {cond} then {xlate(m.group(2), {'len': 'len'}, 64)} else {xlate(m.group(3), {'len': 'len'}, 64)}"
+    yield ("Attr", "paddedAttrLen", "(len : Nat)", padded, "if ((len % 4) = 0) then len else ((len + 4) - (len % 4))")
+
+    def ending():
+        m = re.search(r"let\s+ending_attributes\s*=\s*\[\s*MessageIntegrity::TYPE\s*,\s*MessageIntegritySha256::TYPE\s*,\s*Fingerprint::TYPE\s*,?\s*\]\s*;", src.get(MSG))
+        if not m:
+            raise XlateError("ending_attributes shape")
+        return "[1, 6, 16]"   # indices into typeCodes: MessageIntegrity, MessageIntegritySha256, Fingerprint
+    yield ("Attr", "endingKindIndices", ": List Nat", ending, "[1, 6, 16]")
+
+
 def generate(repo, gen_dir):
     """writes <gen_dir>/<Group>.lean for every item group; files are only rewritten when their
     content changes (so that lake's traces stay valid)."""
@@ -314,7 +364,7 @@ def generate(repo, gen_dir):
     extracted, fallbacks = [], []
     groups = {}
     import itertools
-    for group, name, params, thunk, fallback in itertools.chain(items(src), items_xor(src)):
+    for group, name, params, thunk, fallback in itertools.chain(items(src), items_xor(src), items_attr(src)):
         try:
             body = thunk()
             extracted.append(name)
